@@ -217,8 +217,11 @@ func (w *Wrapper) Copy() Resource {
 	nw.SetID(w.GetID())
 
 	// Attributes
+	//
+	// Byte strings and lists of IDs are copied so that the copy does not
+	// share their backing arrays with the receiver.
 	for _, attr := range w.Attrs() {
-		nw.Set(attr.Name, w.Get(attr.Name))
+		nw.Set(attr.Name, copyValue(w.Get(attr.Name)))
 	}
 
 	// Relationships
@@ -226,7 +229,7 @@ func (w *Wrapper) Copy() Resource {
 		if rel.ToOne {
 			nw.Set(rel.FromName, w.Get(rel.FromName).(string))
 		} else {
-			nw.Set(rel.FromName, w.Get(rel.FromName).([]string))
+			nw.Set(rel.FromName, copyValue(w.Get(rel.FromName).([]string)))
 		}
 	}
 
